@@ -20,3 +20,11 @@ def eq(a, b, rtol=1e-9):
         return a == b
     scale = max(abs(a), abs(b))
     return abs(a - b) <= rtol * scale + 1e-12
+
+
+def call_edit_call(f, arg, key):
+    """call f(arg), change one entry of the dictionary it returned, and call
+    f(arg) again: the second result"""
+    first = f(arg)
+    first[key] = first[key] - 1
+    return f(arg)
